@@ -550,6 +550,8 @@ class Interp:
         return False
 
     def _looks_td(self, p: ast.arg) -> bool:
+        if p.arg in ("actions", "action", "reward", "rewards", "logits", "mask"):
+            return False  # mis-annotated tensors in the repo (e.g. `actions: TensorDict`)
         if p.annotation is not None:
             try:
                 t = ast.unparse(p.annotation)
